@@ -61,7 +61,9 @@ class Creators:
       key = gfa_line.name
       if gfapy.is_placeholder(key):
         key = id(gfa_line)
-      elif key.isascii() and key.isdigit():
+      elif key.isascii() and key.isdigit() and len(key) <= 1000:
+        # (longer names cannot clash with a name computed by unused_name,
+        # and Python refuses to convert more than 4300 digits)
         keynum = int(key)
         if keynum > self._max_int_name:
           self._max_int_name = keynum
